@@ -28,6 +28,8 @@ OPS = [
     ("compat/latex/string", "s", b"Setext\n------\n\n$m$ \\\\[n\\\\] [^f] \"q\" a--b\n\n[^f]: n\n", mmd.EXT_COMPAT, 2),
     ("no-notes-no-critic/html/to_data", "d", b"# H\n\ntext[^f] [#c] [?g] {++a++} {--b--} $m$ \"q\" <u@v.w>\n\n[^f]: n\n", E["SMART"], 0),
     ("all-extensions/html/string", "s", b"Title: T\n\n# H\n\ntext[^f] {++a++} $m$ \"q\"\n\n<div>*h*</div>\n\n[^f]: n\n", D | E["PROCESS_HTML"] | E["NO_LABELS"] | E["COMPLETE"] | E["OBFUSCATE"], 0),
+    ("bom+crlf/html/to_data", "d", b"\xef\xbb\xbfTitle: B\r\n\r\n# H\r\n\r\ntext \"q\"\r\n", D, 0),
+    ("bom-no-metadata/latex/to_data", "d", b"\xef\xbb\xbfplain *text* only\n", D, 2),
     ("engine-reuse/convert html", "E0", NOTES, D, 0),
     ("engine-reuse/convert latex", "E0", NOTES, D, 2),
     ("engine-reuse/parse+export opml", "E1", NOTES, D, 9),
@@ -36,6 +38,7 @@ OPS = [
     ("engine-reuse/german-metadata html", "E0", b"Title: G\nLanguage: de\nQuotes Language: fr\nBase Header Level: 3\nfoo: bar\n\n# H\n\n\"q\" 'r' text[^a] [%foo]\n\n[^a]: n\n", D, 0),
     ("engine-reuse/bare html", "E0", b"# Head\n\n\"q\" 'r' text[^a] more[#c] [?g] [>ab] -- [%foo] [l]\n\n[^a]: n\n\n[#c]: C\n\n[?g]: G\n\n[>ab]: AB\n\n[l]: http://x.y/\n\n| a |\n|---|\n| b |\n", D, 0),
     ("engine-reuse/bare latex", "E0", b"Second\n======\n\n\"q\" text[^b] see [Second][]\n\n[^b]: m\n", D, 2),
+    ("engine-reuse/bom html", "E0", b"\xef\xbb\xbfTitle: B\n\n# H\n\ntext\n", D, 0),
     ("engine-reuse/latex-mode-metadata latex", "E0", b"Title: B\nlatex mode: beamer\nlatex header level: 2\n\n# S\n\n## F\n\ntext\n", D, 2),
 ]
 
